@@ -16,6 +16,7 @@ through the attribute or through an alias taken earlier, plus Commit and Reopen.
    statements (counted by a sqlite3 Connection `factory=`) may only have been issued if a mutating call
    happened since the last commit, and a db_session in another thread / the new db_session must read `doc`.
 """
+import copy
 import json
 import os
 import queue
@@ -27,7 +28,7 @@ from .. import tlc
 from ..tlc import MachineryError
 from ..tlaval import to_plain
 from pony.orm import core
-from pony.orm.core import db_session, Optional, commit, rollback
+from pony.orm.core import db_session, Optional, commit, rollback, flush
 from pony.orm.ormtypes import Json, IntArray, StrArray, TrackedValue
 
 LEVEL = 'model_checking'
@@ -48,16 +49,18 @@ CONSTANTS
  MaxBurst = %(burst)d
  MaxCommits = %(commits)d
  Ops <- %(ops)s
+ SrcDocs <- %(srcdocs)s
+ MoveFrom <- %(moves)s
 CHECK_DEADLOCK FALSE
 '''
 MC_TAIL = '''VIEW View
 INVARIANTS TypeOK CleanIsSaved AliasValid
-PROPERTIES MutationMarks ReadsArePure CommitSaves FailureIsNoop ChangeIsMarked
+PROPERTIES MutationMarks ReadsArePure CommitSaves FailureIsNoop ChangeIsMarked SourceKept
 '''
 
 
 def cfg(spec='Spec', scalars='ScalarsJson', conts='ContsJson', keys='KeysAB', sliceb='SliceBMid', maxlen=3, maxseq=2,
-        docs='DocsSim', burst=0, commits=0, ops='AllOps', mc=False):
+        docs='DocsSim', burst=0, commits=0, ops='AllOps', srcdocs='SrcNone', moves='NoMoves', mc=False):
     return CFG % locals() + (MC_TAIL if mc else '')
 
 
@@ -148,7 +151,7 @@ def target_expr(ev, attr):
     return ('x' + subs(ev['rel'])) if ev['via'] == 'alias' else ('o.%s' % attr + subs(ev['p']))
 
 
-def source(ev, attr):
+def source(ev, attr, plain=False):
     """Python statement performing the step described by ev on `o.<attr>` / on the alias `x`."""
     target = target_expr(ev, attr)
     op = ev['op']
@@ -156,6 +159,14 @@ def source(ev, attr):
         return 'x = %s; r = x' % target
     x = py(ev['x'])
     f = dict(T=target, i=bound(ev['i']), j=bound(ev['j']), k=repr(ev['k']), x=repr(x))
+    if op == 'flush':
+        return 'flush()'
+    mv = ev.get('mv')
+    if mv and mv['on']:
+        # the argument is a nested container of the source attribute (of the same or of a second object)
+        f['x'] = ('o.data2' if mv['from'] == 'attr2' else 'o2.data') + subs(mv['q'])
+        if plain:
+            f['x'] = 'deepcopy(%s)' % f['x']        # pony stores a tracked copy; the source keeps its container
     if op == 'updatekw':
         f['kw'] = ', '.join('%s=%r' % kv for kv in x.items())
     if op == 'updatepairs':
@@ -195,12 +206,15 @@ def check_plain(kind, behaviour):
     attr = ATTR[kind]
     o = Holder()
     setattr(o, attr, py(behaviour[0]['doc']))
-    ns = {'o': o}
+    o2 = Holder()
+    o.data2 = py(behaviour[0]['src'])
+    o2.data = py(behaviour[0]['src'])
+    ns = {'o': o, 'o2': o2, 'deepcopy': copy.deepcopy}
     for st in behaviour[1:]:
         ev = st['ev']
-        if ev['op'] in ('commit', 'reopen'):
+        if ev['op'] in ('commit', 'reopen', 'flush'):
             continue
-        src = source(ev, attr)
+        src = source(ev, attr, plain=True)
         out, ret = execute(ns, src)
         if out != ev['out'] or not same(getattr(o, attr), py(st['doc'])) or \
                 (out == 'ok' and ev['op'] in RETURNS and not same(ret, py(ev['ret']))):
@@ -244,6 +258,7 @@ class Env(object):
 
         class Doc(db.Entity):
             data = Optional(Json)
+            data2 = Optional(Json)      # the source attribute containers are moved from (json behaviours with moves)
             ia = Optional(IntArray)
             sa = Optional(StrArray)
         self.Doc = Doc
@@ -314,7 +329,7 @@ class Replayer(object):
                 start = n
         init = behaviour[start]['ev']['ret'] if start else behaviour[0]['doc']
         steps = behaviour[start + 1:upto + 1]
-        rep = {'kind': self.kind, 'init': init, 'steps': [s['ev'] for s in steps],
+        rep = {'kind': self.kind, 'init': init, 'src': behaviour[0].get('src'), 'steps': [s['ev'] for s in steps],
                'states': [{'doc': s['doc'], 'alias': s['alias']} for s in steps]}
         self.ctx.mismatch(sig, what + ' | in a new db_session on a stored value of %r: ' % (py(init),) +
                           '; '.join(describe(rep['steps'], self.attr)), rep)
@@ -324,9 +339,17 @@ class Replayer(object):
         """behaviour: list of states (dicts with doc, alias, ev); state 0 is the initial one."""
         env, attr, Doc = self.env, self.attr, self.env.Doc
         init = py(behaviour[0]['doc'])
+        self.src = py(behaviour[0]['src']) if self.kind == 'json' and behaviour[0].get('src') else None
+        self.moved = None
         with db_session:
-            new = Doc(**{attr: init})
-            core.flush()
+            if self.src is None:
+                new = Doc(**{attr: init})
+                core.flush()
+            else:
+                new = Doc(data=init, data2=self.src)
+                second = Doc(data=self.src)
+                core.flush()
+                self.ident2 = second.id
             ident = new.id
         env.updates()
         if not same(env.row(ident, attr), init):
@@ -344,7 +367,9 @@ class Replayer(object):
                         self.report('C28:%s:new-session-reads-other-value' % self.kind,
                                     'a new db_session reads %r, the committed value is %r' % (val, py(expected_on_load)),
                                     behaviour, k - 1)
-                    ns = {'o': o}
+                    ns = {'o': o, 'flush': flush}
+                    if self.src is not None:
+                        ns['o2'] = Doc[self.ident2]
                     self.plain_since = 'load' if has_plain_container(getattr(o, attr)) else None      # (attribution only)
                     self.target_tracked = {}
                     while k < len(behaviour) and not reopened:
@@ -414,6 +439,15 @@ class Replayer(object):
                         % (src, untracked(ret), py(ev['ret'])), behaviour, k)
         if ev['via'] == 'attr' and ev['op'] in ('iadd', 'imul', 'ior') and not st['alias']['on']:
             ns.pop('x', None)
+        if ev.get('mv') and ev['mv']['on']:
+            self.moved = k
+        if self.src is not None:
+            for label, cur in (('o.data2', untracked(o.data2)), ('o2.data', untracked(ns['o2'].data))):
+                if not same(cur, self.src):
+                    self.report('C28:%s:changes-the-attribute-its-container-was-moved-from' % name,
+                                'after %s the value of %s is %r: a container stored into o.data from there earlier (%s) is still '
+                                'shared with it, it must stay %r' % (src, label, cur, source(behaviour[self.moved]['ev'], attr)
+                                                                   if self.moved else 'no move', self.src), behaviour, k)
         if self.plain_since is None:
             self.plain_since = k if has_plain_container(getattr(o, attr)) else None
 
@@ -427,6 +461,13 @@ class Replayer(object):
         expected = py(ev['ret'])
         self.say('   %-50s -> row %r, %d UPDATE' % (ev['op'] + '()', row, n_upd))
         steps = [behaviour[i]['ev'] for i in burst]
+        if self.src is not None:
+            for label, got in (('o.data2', self.env.row(ident, 'data2')), ('o2.data', self.env.row(self.ident2, 'data'))):
+                if not same(got, self.src):
+                    changing = [s for s in steps if s['chg']] or steps
+                    self.report('C28:%s:written-to-the-attribute-its-container-was-moved-from' % method_name(changing[-1], self.kind),
+                                'after %s the row of %s holds %r, nothing ever changed that attribute (%r)' % (ev['op'], label, got, self.src),
+                                behaviour, k)
         if not same(row, expected):
             changing = [s for s in steps if s['chg']]
             last_k = max([i for i in burst if behaviour[i]['ev']['chg']] or [0])
@@ -515,7 +556,7 @@ def path_cover(nodes, edges, inits):
 
 
 def plain_state(st):
-    return {'doc': to_plain(st['doc']), 'alias': to_plain(st['alias']), 'ev': to_plain(st['ev'])}
+    return {'doc': to_plain(st['doc']), 'alias': to_plain(st['alias']), 'ev': to_plain(st['ev']), 'src': to_plain(st['src'])}
 
 
 # ---------------------------------------------------------------------------------------------------
@@ -523,14 +564,14 @@ def plain_state(st):
 def plans(tier):
     quick = tier == 'quick'
     if quick:
-        mc = [dict(scalars='ScalarsOne', conts='ContsEmpty', keys='KeysA', sliceb='SliceBSmall', maxlen=1, maxseq=1, docs='DocsMC0', mc=True),
+        mc = [dict(scalars='ScalarsOne', conts='ContsEmpty', keys='KeysA', sliceb='SliceBSmall', maxlen=1, maxseq=1, docs='DocsMC0', srcdocs='SrcOne', moves='MovesBoth', mc=True),
               dict(scalars='ScalarsTwo', conts='ContsNone', keys='KeysA', sliceb='SliceBSmall', maxlen=2, maxseq=1, docs='DocsIntArr2', mc=True)]
     else:
-        mc = [dict(scalars='ScalarsOne', conts='ContsEmpty', keys='KeysA', sliceb='SliceBSmall', maxlen=2, maxseq=1, docs='DocsMC1', mc=True),
+        mc = [dict(scalars='ScalarsOne', conts='ContsEmpty', keys='KeysA', sliceb='SliceBSmall', maxlen=2, maxseq=1, docs='DocsMC1', srcdocs='SrcOne', moves='MovesBoth', mc=True),
               dict(scalars='ScalarsTwo', conts='ContsNone', keys='KeysA', sliceb='SliceBMid', maxlen=2, maxseq=2, docs='DocsIntArr2', mc=True)]
     sim = [
         ('json', dict(spec='SimSpec', scalars='ScalarsJson', conts='ContsJson', keys='KeysAB', sliceb='SliceBMid', maxlen=3,
-                      maxseq=2, docs='DocsSim', burst=3), 150 if quick else 1500, 30),
+                      maxseq=2, docs='DocsSim', burst=3, srcdocs='SrcJson', moves='MovesBoth'), 150 if quick else 1500, 30),
         ('intarray', dict(spec='SimSpec', scalars='ScalarsInt', conts='ContsNone', keys='KeysA', sliceb='SliceBMid', maxlen=3,
                           maxseq=2, docs='DocsIntArr', burst=3, ops='OpsNoSetSlice'), 50 if quick else 400, 30),
         ('strarray', dict(spec='SimSpec', scalars='ScalarsStr', conts='ContsNone', keys='KeysA', sliceb='SliceBMid', maxlen=3,
@@ -556,6 +597,10 @@ def plans(tier):
             ('strarray', dict(scalars='ScalarsStr', conts='ContsNone', keys='KeysA', sliceb='SliceBMid', maxlen=3, maxseq=1,
                               docs='DocsEpisodeStr', burst=1, commits=1)),
         ]
+    # moving a nested container from another Json attribute / another object, flush, change it at the new place
+    graph.append(('json', dict(scalars='ScalarsOne', conts='ContsNone', keys='KeysA', sliceb='SliceBSmall', maxlen=2, maxseq=1,
+                               docs='DocsMove' if quick else 'DocsMove2', burst=3, commits=1, ops='OpsMove', srcdocs='SrcOne',
+                               moves='MovesBoth')))
     return mc, sim, graph
 
 
@@ -657,7 +702,7 @@ def run(ctx):
 
 
 def replay(ctx, rep):
-    behaviour = [{'doc': rep['init'], 'alias': {'on': False, 'p': []}, 'ev': None}]
+    behaviour = [{'doc': rep['init'], 'alias': {'on': False, 'p': []}, 'ev': None, 'src': rep.get('src')}]
     for ev, st in zip(rep['steps'], rep['states']):
         behaviour.append({'doc': st['doc'], 'alias': st['alias'], 'ev': ev})
     env = Env(ctx, 'replay.sqlite')
